@@ -331,3 +331,52 @@ func harnessC16WithUpcastOptions() {
 	}
 	vCover("built")
 }
+
+//verif:entry property=C16 tier=both bounds="R registrations one after another through the public API from the empty registry, every name an arbitrary non-empty SMT string (the solver chooses which names coincide, i.e. the shape of the graph and the order in which its edges arrive); each is rejected exactly when it is a self-loop or closes a cycle; R_quick=5, R_thorough=6" cover="regseq-done,regseq-rejected-cycle" R_quick=5 R_thorough=6
+func harnessC16RegisterOrders() {
+	R := vParam("R", 5)
+	bus := New()
+	var edges []c16Edge
+	for s := 0; s < R; s++ {
+		f, t := vStr("from"), vStr("to")
+		vAssume(f != "" && t != "")
+		err := RegisterUpcastFunc(bus, f, t, c16Dummy)
+		want := f == t || c16Reaches(edges, t, f)
+		vAssert((err != nil) == want, "regseq-rejected-iff-cycle")
+		if err == nil {
+			edges = append(edges, c16Edge{f, t})
+		} else if f != t {
+			vCover("regseq-rejected-cycle")
+		}
+	}
+	vAssert(c16Count(bus.upcastRegistry) == len(edges), "regseq-registry-matches-model")
+	vCover("regseq-done")
+}
+
+//verif:entry property=C16 tier=both bounds="typed registration: RegisterUpcast between two Go types whose event type names (TypeNamer) are arbitrary SMT strings - possibly empty, possibly equal to each other - on a registry holding one optional raw edge with arbitrary names; rejected exactly when a name is empty, the names are equal or the target reaches the source" cover="typed-accepted,typed-rejected"
+func harnessC16TypedRegister() {
+	bus := New()
+	evNamedName, evNamedPName = vStr("source-name"), vStr("target-name")
+	var edges []c16Edge
+	if vBool() {
+		f, t := vStr("from"), vStr("to")
+		vAssume(f != "" && t != "" && f != t)
+		vAssert(RegisterUpcastFunc(bus, f, t, c16Dummy) == nil, "register-ok")
+		edges = append(edges, c16Edge{f, t})
+	}
+	err := RegisterUpcast(bus, func(x evNamed) *evNamedP { return &evNamedP{N: x.N} })
+	from, to := evNamedName, evNamedPName
+	want := from == "" || to == "" || from == to || c16Reaches(edges, to, from)
+	vAssert((err != nil) == want, "rejected-iff-invalid-or-cycle")
+	if err == nil {
+		vAssert(c16Count(bus.upcastRegistry) == len(edges)+1, "accepted-adds-one")
+		all := append(edges, c16Edge{from, to})
+		for _, e := range all {
+			vAssert(!c16Reaches(all, e.t, e.f), "post-acyclic")
+		}
+		vCover("typed-accepted")
+	} else {
+		vAssert(c16Count(bus.upcastRegistry) == len(edges), "rejected-leaves-registry-unchanged")
+		vCover("typed-rejected")
+	}
+}
